@@ -101,6 +101,18 @@ def api_cases(run):
         for combo in itertools.product(S, repeat=k):
             for args in S:
                 yield [[("g", p) for p in combo]], "g", args
+    if run.tier != "thorough":
+        # three and four viable candidates of the call's arity, in every declaration order (the exhaustive triple
+        # enumeration belongs to the thorough tier)
+        for _ in range(1500):
+            args = rng.choice([a for a in S if len(a) >= 1])
+            pool = [s for s in S if len(s) == len(args)]
+            k = rng.choice([3, 3, 4])
+            if len(pool) < k: continue
+            combo = rng.sample(pool, k)
+            perms = list(itertools.permutations(combo))
+            for perm in (perms if k == 3 else rng.sample(perms, 6)):
+                yield [[("g", p) for p in perm]], "g", args
     L = all_sigs(LARGE)
     for _ in range(40000 if run.tier == "thorough" else 6000):
         k = rng.choice([1, 2, 3, 3, 3, 4])
